@@ -6,9 +6,10 @@ import DitModel.Drv.Basic
 import DitModel.Drv.Simplex
 import DitModel.Drv.Info
 import DitModel.Drv.Constr
+import DitModel.Drv.Diverge
 open Dit Dit.Drv
 
-def handlers : List (String × (J → Option J)) := basicHandlers ++ simplexHandlers ++ infoHandlers ++ opsHandlers ++ constrHandlers
+def handlers : List (String × (J → Option J)) := basicHandlers ++ simplexHandlers ++ infoHandlers ++ opsHandlers ++ constrHandlers ++ divergeHandlers
 
 def answer (line : String) : String :=
   let line := line.trimAscii.toString
